@@ -170,6 +170,11 @@ def val_exp(B_val):
 
     phiP_val = B_val - mult_with_ninf(t_val)
     phi = np.sqrt(-float(gmt_func(phiP_val, phiP_val)[0]))
+    if phi == 0.0:
+        # no rotation part: B = t*ninf is null, so exp(B) = 1 + B
+        R_val = mult_with_ninf(t_val)
+        R_val[0] += 1.0
+        return R_val
     P_val = phiP_val / phi
 
     P_n_val = gmt_func(P_val, I3.value)
@@ -227,6 +232,10 @@ def extractRotorComponents(R):
     From :cite:`wareham-interpolation`.
     """
     phi = np.arccos(R[()])             # scalar
+    if phi == 0:
+        # no rotation part: R = 1 + t*ninf/2, its logarithm is the bivector part
+        zero = 0*R(2)
+        return zero, zero, R(2)
     phi2 = phi * phi                  # scalar
     # Notice: np.sinc(pi * x)/(pi x)
     phi_sinc = np.sinc(phi/np.pi)             # scalar
